@@ -42,15 +42,17 @@ PROPS = {
     "C13": {
         "runs": [
             {"harness": "H_C13_opcodes", "pkg": "difflib", "quick": {"p": 4, "q": 4}, "thorough": {"p": 5, "q": 5}},
+            {"harness": "H_C13_opcodes", "pkg": "difflib", "params": {"alphabet": 3}, "quick": {"p": 5, "q": 5}, "thorough": {"p": 6, "q": 6, "pmin": 5, "qmin": 5}},
+            {"harness": "H_C13_opcodes", "pkg": "difflib", "params": {"alphabet": 4, "p": 6, "q": 5, "pmin": 6, "qmin": 5}, "thorough_only": True},
             {"harness": "H_C13_opcodes_long", "pkg": "difflib", "params": {"lines": 12}, "quick": {"sym": 1}, "thorough": {"sym": 2}},
             {"harness": "H_C13_opcodes_long", "pkg": "difflib", "params": {"lines": 210}, "quick": {"sym": 1}, "thorough": {"sym": 1}},
             {"harness": "H_C13_empty", "params": {"ascii": 1}, "quick": {"n": 3}, "thorough": {"n": 4}},
             {"harness": "H_C13_empty", "params": {"ascii": 0}, "quick": {"n": 2}, "thorough": {"n": 2}},
             {"harness": "H_C13_render", "quick": {"lines": 3}, "thorough": {"lines": 4}},
         ],
-        "bounds": {"quick": "op-codes: all pairs of line sequences up to 4+4 lines (every equality pattern), 12- and 210-line sequences with one free line each; "
+        "bounds": {"quick": "op-codes: all pairs of line sequences up to 4+4 lines (every equality pattern) and all pairs over a 3-letter alphabet up to 5+5 lines, 12- and 210-line sequences with one free line each; "
                             "emptiness: ASCII texts <= 3 bytes, arbitrary bytes <= 2; rendering: <= 3 lines of one letter each, with/without final newline",
-                   "thorough": "op-codes up to 5+5 lines, 12 lines with 2 free lines each; emptiness ASCII <= 4; rendering <= 4 lines"},
+                   "thorough": "op-codes up to 5+5 lines (any alphabet), 3-letter alphabet up to 6+6, 4-letter alphabet 6+5, 12 lines with 2 free lines each; emptiness ASCII <= 4; rendering <= 4 lines"},
         "assumptions": COMMON_ASSUME + ["diffmatchpatch is summarised by: rune sequences equal <=> single Equal chunk (DESIGN 5.5)"],
         "outside": ["appearance of inline highlights (colour mode)", "line contents longer than one byte in the op-code harness (only equality of lines is observed by the code)"],
     },
@@ -99,12 +101,14 @@ PROPS = {
     "C17": {
         "runs": [
             {"harness": "H_C17_matcher_errors", "quick": {"matchers": 2}, "thorough": {"matchers": 3}},
+            {"harness": "H_C17_real", "reach": ["error", "ok"]},
         ],
         "bounds": {"quick": "1..2 matchers, each an arbitrary implementation of the matcher interface returning 0..2 errors and rewriting or not; "
-                            "MatchJSON, MatchYAML, MatchStandaloneJSON; CI x Update option x UPDATE_SNAPS (<= 4 bytes) x entry missing/present",
+                            "MatchJSON, MatchYAML, MatchStandaloneJSON; CI x Update option x UPDATE_SNAPS (<= 4 bytes) x entry missing/present; "
+                            "the real Any / Type[string] / Custom JSON matchers on {s:string,v:string|number|null|bool} with an existing or missing path, ErrOnMissingPath on/off, failing callback",
                    "thorough": "1..3 matchers"},
         "assumptions": COMMON_ASSUME + ["matchers are quantified at the JSONMatcher/YAMLMatcher interface (arbitrary outputs and error lists)"],
-        "outside": ["which inputs make the real Any/Type/Custom matchers fail (gjson/sjson and goccy path engines)"],
+        "outside": ["the real YAML matchers (goccy path engine)", "gjson path syntax beyond plain member names"],
     },
     "C18": {
         "runs": [
@@ -122,6 +126,7 @@ PROPS = {
         "runs": [
             {"harness": "H_C19_standalone", "quick": {"n": 3, "calls": 2}, "thorough": {"n": 5, "calls": 3}},
             {"harness": "H_C19_json", "quick": {"n": 2}, "thorough": {"n": 3}},
+            {"harness": "H_C14_invalid", "reach": ["valid", "invalid"], "quick": {"n": 2}, "thorough": {"n": 3}},
         ],
         "bounds": {"quick": "1..2 standalone calls with arbitrary byte values <= 3 (CR allowed), two executions; JSON templates with string leaves <= 2 bytes",
                    "thorough": "values <= 5 bytes, 1..3 calls"},
@@ -132,9 +137,11 @@ PROPS = {
         "runs": [
             {"harness": "H_C20_outcome", "reach": ["failed", "added", "updated", "passed"], "quick": {"faults": 1}, "thorough": {"faults": 1}},
             {"harness": "H_C20_summary"},
+            {"harness": "H_C20_skips", "quick": {"skips": 3}, "thorough": {"skips": 4}},
         ],
         "bounds": {"quick": "one call: CI x Update option x UPDATE_SNAPS (<= 4 bytes) x 5 entry points x entry state, every file-system operation may fail; "
-                            "summary: counters in {0,1,2,11}, 0..2 obsolete files and tests, both modes", "thorough": "same"},
+                            "a test name longer than NAME_MAX (real write failure); summary: counters in {0,1,2,11}, 0..2 obsolete files and tests, both modes; 1..3 Skip*/Skipf/SkipNow calls on TestP, TestP/child, TestQ followed by Clean",
+                   "thorough": "1..4 skip calls"},
         "assumptions": COMMON_ASSUME + ["MatchSnapshot is called with at least one value"],
         "outside": ["concurrent bumps of the counters (schedules)"],
     },
